@@ -659,7 +659,10 @@ func c03Wiring(seed int64, b int, out *childOut) {
 	}
 	for k := 0; k < 2; k++ {
 		seq++
-		audits <- vlib.AuUser("USER_ACCT", vlib.BaseTSms+900000+int64(k), seq, 1, "4294967295", "x", "success")
+		select {
+		case audits <- vlib.AuUser("USER_ACCT", vlib.BaseTSms+900000+int64(k), seq, 1, "4294967295", "x", "success"):
+		case <-time.After(30 * time.Second):
+		}
 	}
 	deadline := time.Now().Add(20 * time.Second)
 	for (len(audits) > 0 || rec.Len() < 2*N) && time.Now().Before(deadline) {
